@@ -339,7 +339,30 @@ def r09_11(ctx):
            fi, lp, 'for retry in %s' % it)
 
 
+def r09_12(ctx):
+    ctx.rule('R09.12', 'every worker gets a consumed-results counter of its own, made for it: the counter that goes into '
+                       'the Worker and into the per-pid table is a fresh Value created in _create_worker_process (a '
+                       'counter handed on from the previous worker of the slot already holds that worker\'s count: the '
+                       'new one stops waiting for its results at once)', floor=1)
+    m = ctx.model
+    cw = m.func('pool:Pool._create_worker_process')
+    reg = [(dn, t, v) for (dn, t, v) in q.assigns(cw, lambda t: t.startswith('self._on_ready_counters['))]
+    q.need(reg, '_create_worker_process does not register a counter')
+    for (dn, t, v) in reg:
+        name = ast.unparse(v)
+        defs = [d for (n_, t_, d) in q.assigns(cw, name)] if isinstance(v, ast.Name) else [v]
+        ok = bool(defs) and all(isinstance(d, ast.Call) and (cw.callee(d) or '').endswith('.Value') for d in defs)
+        ctx.ob('R09.12', '_create_worker_process:counter-is-fresh', ok, cw, dn,
+               '%s = self._ctx.Value(...) made in this call' % name if ok else
+               'the counter registered for the new worker is `%s`, not a fresh Value: it carries the count of an earlier '
+               'worker' % (ast.unparse(defs[0])[:50] if defs else name))
+
+
 def run(ctx):
+    r09_12(ctx)
+    # whether a worker has exited is decided by waitpid alone (borrowed from C19)
+    from .c19 import exit_decided_by_waitpid as _edw
+    _edw(ctx, 'R19.11')
     r09_10(ctx)
     r09_11(ctx)
     # a replacement worker is entered in the per-pid tables before the user hook (borrowed from C07): a worker whose
@@ -379,6 +402,8 @@ def run(ctx):
 
 _P = 'billiard/pool.py'
 MUTANTS = [
+    ('counter-handed-on-to-the-next-worker-of-the-slot', _P, "        on_ready_counter = self._ctx.Value('i')\n", "        on_ready_counter = self._on_ready_counters.get(i) or self._ctx.Value('i')\n", 'R09.12'),
+    ('reaper-skips-workers-whose-sentinel-is-quiet', _P, "            worker = self._pool[i]\n            exitcode = worker.exitcode\n", "            worker = self._pool[i]\n            if worker._popen is not None and not worker._popen.sentinel:\n                continue\n            exitcode = worker.exitcode\n", 'R19.11'),
     ('exit-wrapper-keeps-the-first-status', _P, "        def exit(status=None):\n            _exitcode[0] = status\n", "        def exit(status=None):\n            if _exitcode[0] is None:\n                _exitcode[0] = status\n", 'R09.10'),
     ('consumption-wait-gives-up-on-a-stall', _P, "            time.sleep(GUARANTEE_MESSAGE_CONSUMPTION_RETRY_INTERVAL)\n", "            if retry > 30:\n                break\n            time.sleep(GUARANTEE_MESSAGE_CONSUMPTION_RETRY_INTERVAL)\n", 'R09.11'),
     ('grow-starts-workers-itself', _P, "                self._putlock.grow()\n        self.on_grow(n)\n",
